@@ -50,7 +50,13 @@ Definition run_negot (v : val) : val :=
       | None => VL [finding K_BAD (bs "negot") (VL []) (VL [])]
       | Some h =>
           VL (finding K_TAG (negot_tag h) (VL []) (VL [])
-              :: cmp_field F_RESULT (of_mbool (should_gzip h)) obs
+              (* C16 quantifies over grammatical values (the generator supplies their AST): the decision on
+                 an ungrammatical value is compared under its own field name, which C16 does not list *)
+              :: cmp_field (match h, hint with
+                            | Some _, VL [_] => F_RESULT
+                            | None, _ => F_RESULT
+                            | _, _ => F_RESULT ++ bs ".ungrammatical"
+                            end) (of_mbool (should_gzip h)) obs
               ++ (match obs with VN 2 => [nclause "no-panic"] | _ => [] end)
               ++ (match h with
                   | None => match obs with VN 0 => [] | _ => [nclause "absent-header-is-false"] end
